@@ -13,7 +13,13 @@ class CaseTimeout(BaseException):
     pass
 
 
+_TIMED_OUT = [False]
+
+
 def _alarm(signum, frame):
+    # hy re-wraps exceptions raised during macro expansion / hy.eval (even BaseExceptions),
+    # so the flag, not the exception type, tells run_one that the per-case alarm fired
+    _TIMED_OUT[0] = True
     raise CaseTimeout()
 
 
@@ -32,14 +38,24 @@ def check_tree():
 
 
 def run_one(mod, case, timeout):
+    _TIMED_OUT[0] = False
     signal.signal(signal.SIGALRM, _alarm)
     signal.setitimer(signal.ITIMER_REAL, timeout)
     try:
-        return mod.run_case(case)
+        res = mod.run_case(case)
     except CaseTimeout:
         return {"ok": None, "timeout": True}
+    except BaseException:
+        if _TIMED_OUT[0]:
+            return {"ok": None, "timeout": True}
+        raise
     finally:
         signal.setitimer(signal.ITIMER_REAL, 0)
+    if _TIMED_OUT[0]:
+        # the alarm fired somewhere inside the case (possibly swallowed and reported by hy as
+        # an ordinary error): whatever the oracle concluded is not about hy
+        return {"ok": None, "timeout": True}
+    return res
 
 
 def replay(pid, path, out):
@@ -50,7 +66,7 @@ def replay(pid, path, out):
     if hasattr(mod, "setup_worker"):
         mod.setup_worker("replay", 0)
     try:
-        res = run_one(mod, case, getattr(mod, "REPLAY_TIMEOUT", 120))
+        res = run_one(mod, case, getattr(mod, "REPLAY_TIMEOUT", max(120, 2 * getattr(mod, "CASE_TIMEOUT", 20))))
     except Exception:
         res = {"ok": None, "why": "harness error: " + traceback.format_exc()[-1500:]}
     with open(out, "w") as f:
